@@ -8,6 +8,7 @@ use std::time::{Duration, Instant};
 mod eval;
 mod rng;
 mod t_time_locks;
+mod t_merkle_set;
 mod t_int_encoders;
 
 pub struct Budget {
@@ -31,6 +32,7 @@ fn target(unit: &str) -> Option<Box<dyn Target>> {
     match unit {
         "time_locks" => Some(Box::new(t_time_locks::T)),
         "int_encoders" => Some(Box::new(t_int_encoders::T)),
+        "merkle_set" => Some(Box::new(t_merkle_set::T)),
         _ => None,
     }
 }
